@@ -277,7 +277,14 @@ func (r *runState) assertPC(t *smt.Term) {
 }
 
 func (r *runState) check(extra *smt.Term) smt.Result {
+	if r.w.solver.Dead {
+		panic(pathEnd{endUnsupported, "solver process died or exceeded its hard time limit (path abandoned, inconclusive)"})
+	}
 	res := r.w.solver.Check(extra)
+	if r.w.solver.Dead {
+		r.unknowns++
+		panic(pathEnd{endUnsupported, "solver process died or exceeded its hard time limit (path abandoned, inconclusive)"})
+	}
 	if res == smt.Sat && extra != nil {
 		r.w.solver.PopQuery()
 	}
@@ -501,16 +508,29 @@ func (r *runState) checkAssert(cond value, id string) {
 		e.mu.Unlock()
 		if !c {
 			v := &Violation{ID: id, Kind: "assert", Model: map[string]any{}}
-			if res := r.w.solver.Check(nil); res == smt.Sat {
-				if m, err := r.getModel(); err == nil {
-					v.Model = r.modelJSON(m)
-				}
-			} else {
-				for k, x := range r.choices {
-					v.Model[k] = x
-				}
+			res := smt.Sat
+			if len(r.pc) > 0 {
+				res = r.check(nil)
 			}
-			r.report(v)
+			if res == smt.Sat {
+				if len(r.pc) > 0 {
+					if m, err := r.getModel(); err == nil {
+						v.Model = r.modelJSON(m)
+					}
+				} else {
+					for k, x := range r.choices {
+						v.Model[k] = x
+					}
+				}
+				r.report(v)
+			} else {
+				// the path condition could not be shown satisfiable: not a counterexample
+				e.mu.Lock()
+				s := stat()
+				s.Violated--
+				s.Unknown++
+				e.mu.Unlock()
+			}
 			panic(pathEnd{endViolationStop, id})
 		}
 	case symBool:
